@@ -980,6 +980,7 @@ const (
 )
 
 const (
-	kindRangeBody = cfg.KindRangeBody
-	kindRangeDone = cfg.KindRangeDone
+	kindRangeBody      = cfg.KindRangeBody
+	kindRangeDone      = cfg.KindRangeDone
+	kindSelectCaseBody = cfg.KindSelectCaseBody
 )
